@@ -1684,6 +1684,18 @@ class SymEval:
                     return base.format(*[conv(v) for v in a], **{kk: conv(v) for kk, v in k.items()})
                 return _format
             return getattr(base, attr)
+        if isinstance(base, str) and attr == 'format_map':
+            def _format_map(m):
+                conv = lambda v: int(v) if isinstance(v, sp.Integer) else v
+                if not isinstance(m, dict):
+                    raise Opaque('str.format_map of a non-dict')
+                used = {k_: conv(v) for k_, v in m.items() if isinstance(k_, str) and ('{' + k_) in base}
+                if not all(v is None or (isinstance(v, (str, int)) and not isinstance(v, bool)) for v in used.values()):
+                    raise Opaque('str.format_map of symbolic values')
+                return base.format_map(used)
+            return _format_map
+        if base is dict and attr == 'fromkeys':
+            return lambda keys, value=None: dict.fromkeys(list(self.iterate(keys, n)), value)
         if isinstance(base, list) and attr in ('sort', 'reverse', 'clear', 'remove'):
             return getattr(base, attr)
         if isinstance(base, (tuple,)) and attr in ('index', 'count'):
